@@ -283,6 +283,14 @@ class Gen:
             return ("for", v, self.list_expr(env, 1), flt, self.body(env2, d - 1, True), els, False)
         if c == 6:
             v = self.fresh("s")
+            # a third of the assignments re-bind a name that already exists (context variable, outer
+            # set, loop or macro parameter): shadowing and closure capture only show up then
+            olds = [n for n, k in env.items() if k in ("int", "str", "bool")]
+            if olds and r.chance(1, 3):
+                v = r.choice(olds)          # same kind as before, so that the program stays well typed
+                k = env[v]
+                e = self.int_expr(env, 2, in_loop) if k == "int" else (self.str_expr(env, 2) if k == "str" else self.bool_expr(env, 2, in_loop))
+                return ("set", v, e)
             e = self.any_scalar(env, 2, in_loop)
             env[v] = "int" if e[0] in ("int", "neg", "bin") and (e[0] != "bin" or e[1] != "~") else "other"
             return ("set", v, e)
@@ -416,3 +424,55 @@ def shrink(body, still_fails, budget=300):
             except Exception:
                 pass
     return cur
+
+
+# ---- structured family: macro / call-block closures and scoping ---------------------------------
+def closure_family():
+    """Exhaustive small combinations around what a macro (or call block) body can see:
+    an outer name bound at template level / in a with / in a loop, before or after the macro
+    declaration; the body re-binds it (plainly, inside an if-branch that is or is not taken, inside a
+    loop, inside a with) and reads it afterwards; the macro is called before/after a later outer re-bind.
+    Returns (body, ctx) pairs."""
+    X = "x"
+    out = []
+    rd = ("emit", ("var", X))
+    inner_sets = {
+        "none": [],
+        "plain": [("set", X, ("int", 1))],
+        "if_taken": [("if", [(("var", "c"), [("set", X, ("int", 1))])], None)],
+        "if_else": [("if", [(("var", "c"), [("raw", "-")])], [("set", X, ("int", 2))])],
+        "elif": [("if", [(("bool", False), [("raw", "-")]), (("var", "c"), [("set", X, ("int", 3))])], None)],
+        "for": [("for", "q", ("list", [("int", 1)]), None, [("set", X, ("int", 4))], None, False)],
+        "with": [("with", [("w", ("int", 0))], [("set", X, ("int", 5))])],
+        "setblock": [("setblock", X, [("raw", "sb")], None)],
+    }
+    outer_binds = {
+        "ctxonly": [],                                             # x comes from the render context
+        "set_before": [("set", X, ("int", 5))],
+        "with": None, "loop": None,                                # wrappers, handled below
+    }
+    for ob in ("ctxonly", "set_before", "with", "loop", "set_after"):
+        for name, ins in inner_sets.items():
+            for cval in (True, False):
+                for callblock in (False, True):
+                    body = list(ins) + [("raw", "["), rd, ("raw", "]")]
+                    if callblock:
+                        decl = ("macro", "m", ["c"], [], [("raw", "<"), ("emit", ("call", "caller", [], [])), ("raw", ">")])
+                        use = [("callblock", "m", [("bool", cval)], [("set", "c", ("bool", cval))] + body)]
+                    else:
+                        decl = ("macro", "m", ["c"], [], body)
+                        use = [("emit", ("call", "m", [("bool", cval)], []))]
+                    tail = [("raw", "|"), rd]
+                    if ob == "ctxonly":
+                        prog = [decl] + use + tail
+                    elif ob == "set_before":
+                        prog = [("set", X, ("int", 5)), decl] + use + [("set", X, ("int", 6))] + use + tail
+                    elif ob == "set_after":
+                        prog = [decl, ("set", X, ("int", 7))] + use + tail
+                    elif ob == "with":
+                        prog = [("with", [(X, ("int", 8))], [decl] + use + tail)] + tail
+                    else:
+                        prog = [("for", X, ("list", [("int", 9), ("int", 10)]), None, [decl] + use + tail, None, False)] + tail
+                    for ctx in ({"x": 42, "c": True}, {"c": False}):
+                        out.append((prog, ctx))
+    return out
